@@ -242,7 +242,58 @@ def inst_id_arith(cx, iid):
             inst.violation("packet_id::SPAN", "id space", "the id space is too small for the windows: ids would be ambiguous")
 
 
+def inst_slot_siblings(cx, iid):
+    """T4: every per-packet slot of the receive window is addressed by the same masked id when a
+    packet is stored (handle_datagram) and when it is delivered/advanced (receive), and what is
+    stored is what try_add produced for that datagram"""
+    R = cx.R
+    with cx.instance(iid, "T4 SIBLING", "a received packet's slots are all addressed by id & mask of the same id; stored fields come from the produced packet; delivery takes the data of the cursor's slot", floor=6) as inst:
+        b = R.body(PR + "handle_datagram")
+        idx = "cast<usize>(bitand(arg1.receive_window_mask,arg2.sequence_id))"
+        pk = "AssemblyWindow::try_add(arg1.assembly_window,%s,arg2)@Some.0" % idx
+        want = {
+            "channel_entries": ("arg1.channel_entries[%s]" % idx, "ChannelAdvEntry{%s.channel_id,%s.channel_parent_lead}" % (pk, pk)),
+            "window_entries": ("arg1.window_entries[%s]" % idx, "WindowAdvEntry{%s.window_parent_lead}" % pk),
+            "data_entries": ("arg1.data_entries[%s]" % idx, "DataEntry{%s.data}" % pk),
+        }
+        seen = set()
+        for l, node, ps in b.field_writes(r"arg1\.(channel_entries|window_entries|data_entries)\[.*\]"):
+            nm = ps.split(".")[1].split("[")[0]
+            v = show(b.rvalue_expr(node["rv"]))
+            seen.add(nm)
+            inst.site(b, l, "store " + nm)
+            if (ps, v) != want[nm]:
+                inst.violation(b.path, "store " + nm, "handle_datagram stores `%s = %s`; siblings store the produced packet's field at id & mask" % (ps[:80], v[:100]), at=b.span_at(l))
+        if seen != set(want):
+            inst.violation(b.path, "slot stores", "expected stores to channel_entries, window_entries and data_entries (found %s)" % sorted(seen))
+        bit = "shl(1,rem(%s,64))" % idx
+        for l, node, ps in b.field_writes(r"arg1\.(entry_flags|data_flags)\[.*\]"):
+            nm = ps.split(".")[1].split("[")[0]
+            v = show(b.rvalue_expr(node["rv"]))
+            inst.site(b, l, "set " + nm)
+            exp_ps = "arg1.%s[div(%s,64)]" % (nm, idx)
+            if ps != exp_ps or v not in ("bitor(%s,%s)" % (exp_ps, bit), "bitor(%s,%s)" % (bit, exp_ps)):
+                inst.violation(b.path, "set " + nm, "flag update `%s = %s` does not address the packet's own bit" % (ps[:70], v[:90]), at=b.span_at(l))
+        r = R.body(PR + "receive")
+        for loc, t in r.calls("PacketSink::send"):
+            e = show(r.call_expr(t))
+            m = re.fullmatch(r"PacketSink::send\(arg2,Option::take\(arg1\.data_entries\[cast<usize>\(bitand\(arg1\.receive_window_mask,(var\d+)\)\)\]\.data\)@Some\.0\)", e)
+            inst.site(r, loc, "deliver data_entries[cursor & mask]")
+            if not m:
+                inst.violation(r.path, "delivered slot", "receive delivers `%s`, expected the data stored in the cursor's own slot" % e[:140], at=r.span_at(loc))
+                continue
+            cur = m.group(1)
+            fa = cx.fa(r)
+            g, _ = dnf_holds(fa.at(loc), [[r"ne\(0,bitand\(arg1\.data_flags\[div\(cast<usize>\(bitand\(arg1\.receive_window_mask,%s\)\),64\)\],shl\(1,rem\(cast<usize>\(bitand\(arg1\.receive_window_mask,%s\)\),64\)\)\)\)" % (cur, cur)]])
+            if not g:
+                inst.violation(r.path, "delivery without data flag", "a slot is delivered without its own data flag being set", at=r.span_at(loc))
+            # the channel consulted is the one stored for this slot
+            if "arg1.channel_entries[cast<usize>(bitand(arg1.receive_window_mask,%s))].channel_id" % cur not in " ".join(" ".join(a) for a in (fa.at(loc) or [])):
+                inst.violation(r.path, "channel of slot", "the delivery test does not consult the channel stored for the delivered slot", at=r.span_at(loc))
+
+
 def run(cx):
+    inst_slot_siblings(cx, "C01.h")
     inst_frame_window(cx, "C01.a")
     inst_receive_window(cx, "C01.b")
     inst_handle_datagram(cx, "C01.c")
